@@ -2,6 +2,8 @@ package props
 
 import (
 	"fmt"
+	"github.com/advancedclimatesystems/gonnx/ops"
+	"gorgonia.org/tensor"
 	"math"
 
 	"github.com/advancedclimatesystems/gonnx/onnx"
@@ -267,7 +269,41 @@ func castValue(r *gen.R, from, to ref.DType) uint64 {
 	return 0
 }
 
+// c11ConversionPairs: the conversion routine under Cast, called the way Cast.Apply calls
+// it, for every pair (element type of the operand, data_type code of the target): the ten
+// numeric types convert into one another, every other pair - also a type "converted" to
+// itself - is refused with an error.
+func c11ConversionPairs(c *Ctx) {
+	numeric := map[ref.DType]bool{ref.F32: true, ref.F64: true, ref.I8: true, ref.I16: true, ref.I32: true, ref.I64: true, ref.U8: true, ref.U16: true, ref.U32: true, ref.U64: true}
+	for _, from := range gen.All14 {
+		for code := int32(-1); code <= 20; code++ {
+			to, known := ref.FromOnnxCode(code)
+			supported := numeric[from] && known && numeric[to]
+			t := mon.ToTensor(c.R.Tensor(from, []int{2}, gen.FillSmall, 3))
+			var out tensor.Tensor
+			o := mon.Capture(nil, func() ([]tensor.Tensor, error) {
+				var err error
+				out, err = ops.ConvertTensorDtype(t, code)
+				return nil, err
+			})
+			c.Eval(1)
+			switch {
+			case o.Kind == mon.Panic:
+				c.Violation("Cast:panic", "ConvertTensorDtype(%v operand, target code %d): %s", from, code, o.Describe())
+			case supported && o.Kind == mon.Error:
+				c.Violation("Cast:refused-valid", "ConvertTensorDtype(%v operand, target code %d) refused: %v", from, code, o.Err)
+			case !supported && o.Kind != mon.Error:
+				c.Violation("Cast:accepted-invalid", "ConvertTensorDtype(%v operand, target code %d) is not a supported conversion but returned a tensor of type %v", from, code, out.Dtype())
+			}
+		}
+	}
+	c.Count("conversion-routine-pairs-enumerated", 1)
+}
+
 func c11Run(c *Ctx) {
+	if c.Idx == 0 {
+		c11ConversionPairs(c)
+	}
 	if c.Idx%16 == 9 {
 		c11Shared(c)
 		return
